@@ -19,7 +19,7 @@ PICTURE_NUMBERS = {"start_at_zero": [0, 1, 2, 3, 4, 5, 6, 7], "non_zero_start": 
 SLOW = {"signal_range", "real_pictures"}   # need the large bundled analyses / natural pictures: thorough tier only
 
 
-class Timeout(Exception):
+class Timeout(BaseException):  # not an Exception: the code under test may catch Exception broadly
     pass
 
 
